@@ -43,13 +43,17 @@ def gen_cases(rng, n):
             dim = rng.randint(1, 3)
             T = rng.randint(1, 15)
             init = rand_rows(rng, d, dim) if (d > 0 and rng.random() < 0.6) else None
-            cases.append({"kind": "delay", "delay": d, "dim": dim, "init": init, "X": rand_rows(rng, T, dim)})
+            # a quarter of the inputs are integer-typed arrays (the initial values stay fractional)
+            int_in = rng.random() < 0.25
+            X = [[Fraction(rng.randint(-9, 9)) for _ in range(dim)] for _ in range(T)] if int_in else rand_rows(rng, T, dim)
+            cases.append({"kind": "delay", "delay": d, "dim": dim, "init": init, "X": X, "int_input": int_in})
         elif kind == "nvar":
             delay, order, strides = rng.randint(1, 3), rng.randint(1, 3), rng.randint(1, 3)
             dim = rng.randint(1, 3 if delay * order <= 4 else 2)
             T = rng.randint(1, 12)
-            cases.append({"kind": "nvar", "delay": delay, "order": order, "strides": strides, "dim": dim,
-                          "X": rand_rows(rng, T, dim, lim=6, maxpow=1)})
+            int_in = rng.random() < 0.2
+            X = [[Fraction(rng.randint(-5, 5)) for _ in range(dim)] for _ in range(T)] if int_in else rand_rows(rng, T, dim, lim=6, maxpow=1)
+            cases.append({"kind": "nvar", "delay": delay, "order": order, "strides": strides, "dim": dim, "X": X, "int_input": int_in})
         elif kind == "concat":
             k = rng.randint(2, 4)
             cases.append({"kind": "concat", "data": [rand_rows(rng, 1, rng.randint(1, 3))[0] for _ in range(k)]})
@@ -73,12 +77,12 @@ def run_impl(c):
     if c["kind"] == "delay":
         init = None if c["init"] is None else farr(c["init"])
         node = Delay(delay=c["delay"], initial_values=init, name=uname("dly"))
-        out = node.run(farr(c["X"]))
+        out = node.run(farr(c["X"]).astype(np.int64) if c.get("int_input") else farr(c["X"]))
         buf = [np.asarray(b).ravel().tolist() for b in node.buffer]
         return {"out": out.tolist(), "buf": buf}
     if c["kind"] == "nvar":
         node = NVAR(delay=c["delay"], order=c["order"], strides=c["strides"], name=uname("nvar"))
-        out = node.run(farr(c["X"]))
+        out = node.run(farr(c["X"]).astype(np.int64) if c.get("int_input") else farr(c["X"]))
         return {"out": out.tolist(), "store": np.asarray(node.store).tolist()}
     if c["kind"] == "concat":
         node = Concat(name=uname("cat"))
